@@ -67,7 +67,7 @@ def tasks(tier):
     # its obligations are re-checked here (dep.*) so that a change to the
     # shared code generation that breaks this property fails this check too
     return ['symbols', 'set_kernel', 'closure', 'wiring', 'wrapper', 'objects',
-            'canary',
+            'compiler', 'canary',
             'dep:skeleton',
             'dep:range', 'dep:determinism', 'dep:group_calls', 'dep:carry',
             'dep:bounded', 'dep:forward',
@@ -274,6 +274,8 @@ def run_task(task, ctx):
         return task_wrapper(ctx, repo)
     if task == 'objects':
         return task_objects(ctx, repo)
+    if task == 'compiler':
+        return task_compiler(ctx, repo)
     if task == 'canary':
         x = z3.Real('cx')
         ctx.canary('canary.must_fail', Obligation('c', [], WF(x, x, x, x, x)
@@ -742,6 +744,78 @@ def task_objects(ctx, repo):
 class _ZeroDict(dict):
     def __missing__(self, k):
         return 0
+
+
+# ------------------------------------------------------------- the compiler
+def task_compiler(ctx, repo):
+    """SPHCompiler.compile: the first evaluator's code is compiled together
+    with the integrator's; EVERY evaluator's compiled object is set up from
+    the module built from ITS OWN generated code (the stages of a
+    MultiStageEquations differ), the integrator from the first module and
+    the first evaluator's compiled object; a second call compiles nothing."""
+    m = repo.module('pysph.sph.sph_compiler')
+    W = m.path
+    fn = m.methods('SPHCompiler')['compile']
+    obs = []
+    for with_integ in (True, False):
+        tr = []
+
+        def helper(i):
+            return SymObject(None, dict(
+                get_code=Native(lambda e, s_, a, k, n, i=i: 'CODE%d' % i),
+                compile=Native(lambda e, s_, a, k, n, i=i: (tr.append(
+                    ('compile', i, a[0])), ('MODULE_OF', a[0]))[1]),
+                setup_compiled_module=Native(
+                    lambda e, s_, a, k, n, i=i: tr.append(('setup', i,
+                                                           list(a))))),
+                'helper%d' % i)
+        helpers = [helper(i) for i in range(3)]
+        ih = SymObject(None, dict(
+            get_code=Native(lambda e, s_, a, k, n: '+INTEG'),
+            setup_compiled_module=Native(lambda e, s_, a, k, n: tr.append(
+                ('setup_integrator', list(a))))), 'integrator_helper')
+        evals = [SymObject(None, dict(c_acceleration_eval=('C', i)),
+                           'a_eval%d' % i) for i in range(3)]
+        obj = SymObject('SPHCompiler', dict(
+            module=None, acceleration_eval_helpers=helpers,
+            acceleration_evals=evals, integrator_helper=ih, backend='cython',
+            integrator='INTEG' if with_integ else None), 'self')
+        obj.module = m.name
+        ex = Executor(repo, m, qualname='SPHCompiler.compile', merge=False,
+                      inline={'SPHCompiler._get_code'})
+        try:
+            outs = ex.exec_function(fn, dict(self=obj))
+        except VCError as e:
+            ctx.outside('compiler', str(e))
+            return
+        code0 = 'CODE0+INTEG'
+        want = [('compile', 0, code0), ('setup', 0, [('MODULE_OF', code0)])]
+        if with_integ:
+            want.append(('setup_integrator', [('MODULE_OF', code0),
+                                              ('C', 0)]))
+        for i in (1, 2):
+            want += [('compile', i, 'CODE%d' % i),
+                     ('setup', i, [('MODULE_OF', 'CODE%d' % i)])]
+        ok = len(outs) == 1 and tr == want and \
+            outs[0].state.env['self'].attrs['module'] == ('MODULE_OF', code0)
+        obs.append(Obligation('compiler.every_stage_gets_its_own_module.%s' %
+                              ('integrator' if with_integ else
+                               'no_integrator'), [], z3.BoolVal(bool(ok)), W,
+                              extra=dict(trace=str(tr)[:400])))
+        # a second call is a no-op
+        if len(outs) == 1:
+            n0 = len(tr)
+            ex2 = Executor(repo, m, qualname='SPHCompiler.compile',
+                           merge=False, inline={'SPHCompiler._get_code'})
+            outs2 = ex2.exec_function(fn, dict(self=outs[0].state.env['self']),
+                                      outs[0].state)
+            obs.append(Obligation('compiler.second_call_compiles_nothing.%s' %
+                                  with_integ, [], z3.BoolVal(
+                                      len(outs2) == 1 and len(tr) == n0), W))
+    ctx.function(m, fn, 'SPHCompiler.compile')
+    ctx.function(m, m.methods('SPHCompiler')['_get_code'],
+                 'SPHCompiler._get_code')
+    ctx.prove('compiler.each_evaluator_runs_its_own_compiled_code', obs)
 
 
 def replay_wiring(model, ob):
